@@ -4,6 +4,7 @@ import CasbinVerif.Driver.Enforcer
 import CasbinVerif.Driver.KeyMatch
 import CasbinVerif.Driver.Config
 import CasbinVerif.Driver.Cached
+import CasbinVerif.Driver.Sync
 /-
   casbin-model: the line-protocol driver.  Reads one operation per line on stdin and prints, for
   every line, `<model observation> ;; <spec observation> ;; <wf>` where `wf` tells whether the line
@@ -39,6 +40,10 @@ def stepLine (st : DState) (line : String) : DState × String :=
     else if comp == "enforcer" then
       match enfOp st.enf ts with
       | some (s', m, s, wf) => ({ st with enf := s' }, fmt m s wf)
+      | none => (st, "bad-op")
+    else if comp == "sync" then
+      match syncOp ts with
+      | some (m, s, wf) => (st, fmt m s wf)
       | none => (st, "bad-op")
     else if comp == "cached" then
       match cachedOp st.cached ts with
